@@ -53,6 +53,7 @@ class Universe:
         f = copy.deepcopy(s); f.auth = None; f.cal = dict(pub=cs.P2, aggr=cs.T, inp=s.cal["inp"], links=l2); f.pub = dict(time=cs.P2, imp=ksi.cal_aggregate(l2, s.cal["inp"])); forms["pub2"] = f
         f = copy.deepcopy(s); f.chains[0]["index"] = list(f.chains[0]["index"]); f.chains[0]["index"][-1] ^= 1; forms["broken"] = f
         self.bytes = {k: v.tlv() for k, v in forms.items()}
+        self.bytes["nonmin"] = nonminimal(self.bytes["pub"])
         cs.e = dict(c04_good(), up="given", upTime="atSigPub", pfc=dict(atSig="match", later="true"))
         self.userpub = cs.user_pub(); self.pf = cs.pub_file()
         self.docs = {"-": "-", "right": cs.doc.hex(), "wrong": sigcase.flip(cs.doc).hex()}
@@ -80,6 +81,22 @@ class Universe:
         out = self.serve(s, out)
         f = netsim.kv([l for l in out if l.startswith("R verify")][0])
         return (f.get("rc"), f.get("res"), f.get("code"), f.get("parse"))
+
+
+def nonminimal(sig):
+    """the same signature with the aggregation-time element of its first aggregation chain written with a 16-bit TLV header"""
+    top = ksi.parse_tlvs(sig)[0]
+    parts = []; done = False
+    for t, nc, fw, p, _ in ksi.parse_tlvs(top[3]):
+        if t == 0x0801 and not done:
+            inner = b""
+            for tt, n2, f2, pp, _ in ksi.parse_tlvs(p):
+                inner += ksi.tlv(tt, pp, nc=n2, fw=f2, long=(True if (tt == 0x02 and not done) else None))
+                if tt == 0x02: done = True
+            parts.append(ksi.tlv(t, inner, nc=nc, fw=fw))
+        else:
+            parts.append(ksi.tlv(t, p, nc=nc, fw=fw))
+    return ksi.tlv(top[0], b"".join(parts), nc=top[1], fw=top[2])
 
 
 def c04_good():
@@ -119,7 +136,7 @@ def run(chk, tier, seed):
                     out = S.cmd("OPARSE %d %s" % (a, U.bytes[c].hex()))
                     if "rc=0x0" not in out[-1]:
                         chk.violation("parse-failed:" + c, "reference-built signature (%s form) rejected: %s" % (c, out[-1]), dict(trace=tr[:si + 1])); break
-                    created[a] = ("parsed", U.bytes[c])
+                    created[a] = ("parsed", U.bytes[c] if c != "nonmin" else None)     # non-canonical input: the first serialization defines the object's bytes
                 elif o == "clone":
                     out = S.cmd("OCLONE %d %d" % (a, b_)); created[a] = ("clone", created[b_][1])
                 elif o in ("extend", "extendwith"):
